@@ -356,4 +356,24 @@ theorem ExitInv_reach {pw : Pid → List Wid} {p : Pid} {t : Tid} {c0 c : Cfg} (
   | refl => exact ExitInv_init h0 hs
   | step _ hst ih => obtain ⟨s, u, hst⟩ := hst; exact ExitInv_step ih hst
 
+/-- Every replayed schedule stays inside `Reach` (each entry carries its own oracle value). -/
+theorem Reach_runSched {pw : Pid → List Wid} {c0 : Cfg} (sched : List (Tid × (Wid → Bool))) :
+    ∀ c, Reach pw c0 c → Reach pw c0 (runSched pw c sched) := by
+  induction sched with
+  | nil => intro c h; exact h
+  | cons e es ih =>
+    intro c h
+    obtain ⟨t, u⟩ := e
+    simp only [runSched]
+    cases hs : step? pw u c t with
+    | none => simpa using ih c h
+    | some c' => simpa using ih c' (Reach.step h ⟨t, u, hs⟩)
+
+/-- Only the program point `uRd` (`has_capacity and is_alive`, evaluated by `next_idle_worker`)
+consults the capacity/liveness oracle; `acquire_by`, `release`, `is_available`, `is_locked` do not. -/
+theorem mstep_oracle_irrelevant (u u' : Wid → Bool) (W : Wid → Worker) (t : Tid) (cl : Call)
+    (h : cl.pc ≠ .uRd) : mstep u W t cl = mstep u' W t cl := by
+  unfold mstep
+  cases hpc : cl.pc <;> simp_all
+
 end MlModel.Owner
